@@ -586,4 +586,3 @@ func isParamOf(f *fn, v *types.Var) bool {
 	}
 	return false
 }
-
